@@ -979,8 +979,14 @@ func (x *Exec) branch(s *State, cond Value) (tS, fS *State) {
 	case tmask == 0 && fmask == 0:
 		return nil, nil
 	case fmask == 0:
+		if x.Hooks.Decide != nil && ok {
+			x.Hooks.Decide(x, s, at.Name, x.Possible(s, at.Name))
+		}
 		return s, nil
 	case tmask == 0:
+		if x.Hooks.Decide != nil && ok {
+			x.Hooks.Decide(x, s, at.Name, x.Possible(s, at.Name))
+		}
 		return nil, s
 	}
 	t := s.clone()
